@@ -17,6 +17,14 @@ Part C  `sweep`    real Reactor sweeps (FuelModel / PinModel, 2-3 rings, 1-3
         `hotspot.analyze` for all six locations with harness-written unity /
         >1 / expression tables or the built-in ones.
         `nopin`    hot-spot requests on assemblies without a pin model (F11).
+        `report`   the same sweeps run to the end (real `Reactor.postprocess`,
+        summary written to dassh.out) with temperature unit kelvin, celsius
+        and fahrenheit: the REPORTED hot-spot columns ("Peak + Unc." of the
+        coolant table, "N-Sigma Peak Temps" of the five peak pin tables) are
+        parsed and must be the unit-converted `hotspot.analyze` values (= the
+        reference sum) to print precision; printed nominal peaks likewise;
+        unity table -> printed hot spot == printed nominal; factors >= 1 ->
+        printed hot spot >= printed nominal.
 
 Reference model (harness, explicit loops, no cumsum/prod):
     z_k   = dT_k * prod_i D_ik
@@ -1350,9 +1358,209 @@ def run_nopin(c):
     return r
 
 
+# ---- reported hot-spot temperatures (dassh.out) -------------------------
+UNITS = ('kelvin', 'celsius', 'fahrenheit')
+
+
+def _to_unit(x, unit):
+    """kelvin -> user unit (harness conversion)"""
+    if unit == 'celsius':
+        return x - 273.15
+    if unit == 'fahrenheit':
+        return x * 9.0 / 5.0 - 459.67
+    return x
+
+
+def cases_report(tier):
+    out = []
+    idx = 0
+    if tier == 'quick':
+        bases = [(2, 'fuel', 2, 0), (2, 'pin', 1, 2)]
+        variants = ('unity', 'hot')
+    else:
+        bases = [(rings, model, n_asm, (rings + n_asm) % 5) for rings in (2, 3)
+                 for model in ('fuel', 'pin') for n_asm in (1, 2, 3)]
+        variants = ('unity', 'hot', 'expr')
+    for rings, model, n_asm, shape in bases:
+        for unit in UNITS:
+            for variant in variants:
+                out.append({'part': 'report', 'rings': rings, 'model': model, 'n_asm': n_asm,
+                            'shape': shape, 'tabset': 'gen', 'gap': 'none', 'unit': unit,
+                            'variant': variant, 'idx': idx})
+                idx += 1
+    return out
+
+
+def _report_meta():
+    """titles and column layout read from the real table objects"""
+    import re
+    from dassh import table as T
+    out = {}
+    tabs = [('coolant', T.CoolantTempTable(), 'COOLANT TEMPERATURE SUMMARY')]
+    for loc in LOCS[1:]:
+        comp, reg = loc.split('_')
+        tabs.append((loc, T.PeakPinTempTable(comp, reg),
+                     'PEAK %s %s TEMPERATURES' % (comp.upper(), reg.upper())))
+    for name, tab, title in tabs:
+        m = re.search(r'\.(\d+)f', tab._ffmt2)
+        out[name] = {'title': title, 'w0': tab.col0_width, 'w': tab.col_width, 'div': tab.divider,
+                     'ncol': tab.n_col, 'width': tab.width, 'dp': int(m.group(1))}
+    return out
+
+
+def _report_rows(text, meta):
+    """data rows of the section with the given title ({row label: cells});
+    rows follow the first full-width rule and end at the first blank line"""
+    lines = text.split('\n')
+    if meta['title'] not in lines:
+        return None
+    j = lines.index(meta['title']) + 1
+    rule = '-' * meta['width']
+    while j < len(lines) and lines[j] != rule:
+        j += 1
+    rows = {}
+    j += 1
+    while j < len(lines) and lines[j].strip() != '':
+        ln = lines[j]
+        j += 1
+        if set(ln) == {'-'}:
+            continue
+        cells = [ln[:meta['w0']].strip()]
+        pos = meta['w0']
+        for k in range(meta['ncol']):
+            pos += len(meta['div'])
+            cells.append(ln[pos:pos + meta['w']].strip())
+            pos += meta['w']
+        rows[cells[0]] = cells
+    return rows
+
+
+def run_report(c):
+    """sweep + real postprocess(); the hot-spot columns of the coolant and
+    peak pin tables of dassh.out must be the unit-converted analyze values"""
+    from dassh import hotspot
+    r = new_result()
+    V = r['violations']
+    unit, variant = c['unit'], c['variant']
+    scn, types = _sweep_scenario(c)
+    for typ in types:
+        for loc in LOCS:
+            rows, m = _gen_rows(typ, loc, variant)
+            scn['files']['hs_%s_%s.csv' % (typ, loc)] = _csv_text(rows, m)
+    if unit != 'kelvin':
+        scn['units'] = {'temperature': unit}
+        scn['core']['inlet'] = round(_to_unit(T_IN, unit), 9)
+    ex = {'R_cells': {}}
+
+    def cnt(key, v=1):
+        ex['R_cells'][key] = ex['R_cells'].get(key, 0) + v
+
+    def num(cell):
+        try:
+            return float(cell)
+        except ValueError:
+            return None
+
+    with S.Built(scn) as b:
+        reac = b.reactor(write_output=True)
+        reac.temperature_sweep()
+        r['states'] = len(reac.z) * len(reac.assemblies)
+        r['transitions'] = r['states']
+        t_in = float(reac.inlet_temp)
+        if abs(t_in - T_IN) > 1e-6:
+            V.append(violation('report-inlet-conversion', c, 'inlet temperature after input conversion',
+                               t_in, T_IN, 1e-6))
+        temps, ids = hotspot.analyze(reac)
+        reac.postprocess()
+        r['transitions'] += 2
+        with open(os.path.join(b.dir, 'dassh.out')) as fh:
+            text = fh.read()
+        meta = _report_meta()
+        for loc in LOCS:
+            M = meta[loc]
+            li = LOCS.index(loc)
+            n = NTERMS[loc]
+            rows = _report_rows(text, M)
+            site = 'table.py:CoolantTempTable.make' if loc == 'coolant' \
+                else 'table.py:PeakPinTempTable._get_hotspot_temps'
+            if rows is None:
+                V.append(violation('report-table-missing', dict(c, loc=loc),
+                                   'section "%s" not found in dassh.out' % M['title'], site=site))
+                continue
+            unit1 = 10.0 ** (-M['dp'])
+            for ai, a in enumerate(reac.assemblies):
+                sc = dict(c, loc=loc, asm=a.id)
+                row = rows.get(str(ai + 1))
+                if row is None or a.id not in list(ids.get(loc, [])):
+                    V.append(violation('report-table-missing', sc, 'no row / no analyze result for the '
+                                       'assembly', None if row is None else row, None, site=site))
+                    continue
+                got = np.asarray(temps[loc][list(ids[loc]).index(a.id)], dtype=float)
+                # reference sum from the peak profile the Assembly recorded
+                ti = types.index(a.name)
+                i, o = _sigma_for(c['idx'], li, ti)
+                if loc == 'coolant':
+                    nom_k = np.array([float(a._peak['cool'][0])])
+                else:
+                    nom_k = np.array([float(x) for x in a._peak['pin'][loc][2][3:PINCOL[loc] + 1]])
+                d = np.diff(np.concatenate([[t_in], nom_k]))[None, :]
+                prow, m = _gen_rows(a.name, loc, variant)
+                D, Sx = _own_factors(prow, loc, d)
+                _, _, T0, U = _reference(t_in, d, D, Sx)
+                ref = T0[0] + (float(o) / float(i)) * U[0]
+                tol = ULPS * EPS * float(np.max(np.abs(ref)))
+                if got.shape != ref.shape or (np.abs(got - ref) > tol).any():
+                    V.append(violation('wrong-rises-used', sc, 'analyze differs from the reference sum',
+                                       got.tolist(), ref.tolist(), tol))
+                    continue
+                if loc == 'coolant':
+                    p_nom = [num(row[6])]
+                    p_hot = [num(row[7])]
+                else:
+                    p_nom = [num(x) for x in row[5:5 + n]]
+                    p_hot = [num(x) for x in row[11:11 + n]]
+                r['traces'] += 1
+                bad = None
+                for j in range(n):
+                    cnt(unit)
+                    e_hot = _to_unit(float(ref[j]), unit)
+                    e_nom = _to_unit(float(nom_k[j]), unit)
+                    # printed to dp decimals: half a unit of the last digit + round-off of the conversion
+                    tp = 0.5 * unit1 + 1e-9 * abs(e_hot)
+                    if p_hot[j] is None or abs(p_hot[j] - e_hot) > tp:
+                        bad = ('report-hotspot-not-converted', 'printed N-sigma value is not the '
+                               'hot-spot temperature in the requested unit (%s)' % unit,
+                               row[7] if loc == 'coolant' else row[11:11 + n],
+                               [round(_to_unit(float(x), unit), M['dp']) for x in ref], tp)
+                        break
+                    if p_nom[j] is None or abs(p_nom[j] - e_nom) > tp:
+                        bad = ('report-nominal-not-converted', 'printed nominal peak is not the '
+                               'recorded peak in the requested unit (%s)' % unit,
+                               row[6] if loc == 'coolant' else row[5:5 + n],
+                               [round(_to_unit(float(x), unit), M['dp']) for x in nom_k], tp)
+                        break
+                    # two printed numbers: one unit of the last printed digit
+                    if variant == 'unity' and abs(p_hot[j] - p_nom[j]) > unit1 * (1 + 1e-9):
+                        bad = ('report-unity-not-nominal', 'unity table: printed hot spot != printed '
+                               'nominal peak', p_hot, p_nom, unit1)
+                        break
+                    if p_hot[j] < p_nom[j] - unit1 * (1 + 1e-9):
+                        bad = ('report-below-nominal', 'factors >= 1 but the printed hot spot is below '
+                               'the printed nominal peak', p_hot, p_nom, unit1)
+                        break
+                if bad:
+                    V.append(violation(bad[0], sc, bad[1], bad[2], bad[3], bad[4], site=site))
+    r['nontrivial'] = r['traces'] > 0
+    r['outcome'] = 'ok' if not V else 'violated'
+    r['extra'] = ex
+    r['info'] = {'rows_checked': r['traces'], 'unit': unit, 'variant': variant}
+    return r
+
+
 # ======================================================================
 PARTS = {'tables': run_tables, 'reader': run_reader, 'builtin': run_builtin,
-         'tablecls': run_tablecls, 'sweep': run_sweep, 'nopin': run_nopin}
+         'tablecls': run_tablecls, 'sweep': run_sweep, 'nopin': run_nopin,
+         'report': run_report}
 
 
 def run_case(c):
@@ -1369,7 +1577,9 @@ def main(run):
         '20 sigma pairs x rise vectors {5,40}^n + zero; tablecls: every malformed/odd class x location '
         'x fault position; sweep: ring count x pin model x assemblies of the type x power shape x table '
         'set (quick: one shape/table set per combination, cyclic); nopin: rings x assemblies x request '
-        'x mixed.  VERIF_SEED is not used.')
+        'x mixed; report: base sweeps (quick 2, thorough 12) x temperature unit {kelvin, celsius, '
+        'fahrenheit} x table variant (unity, >1; thorough also expressions), all six locations.  '
+        'VERIF_SEED is not used.')
     run.assumptions = [
         'reference semistatistical sum recomputed in the harness with explicit loops (no cumsum/prod)',
         'tolerance 64 ulp of the largest temperature of the batch (fewer than 64 rounded operations '
@@ -1381,6 +1591,9 @@ def main(run):
         'parts; real Reactor sweeps for the sweep/nopin parts',
         'recorder wraps Assembly.calculate as an instance attribute and copies pin_temp_array',
         'input_sigma = 0 is outside the asserted alphabet (reported in extra.A_input_sigma_0)',
+        'report part: dassh.out sections located by title, column layout and print precision read '
+        'from the real table objects; printed value vs recomputation: half a unit of the last printed '
+        'digit + 1e-9 relative; printed vs printed: one unit of the last printed digit',
     ]
     ct = cases_tables(run.tier)
     run.check_determinism(run_case, ct[0])
@@ -1394,6 +1607,7 @@ def main(run):
     res_s = run.explore('sweep', cs, run_case, budget_s=600, chunksize=1)
     cn = cases_nopin(run.tier)
     res_n = run.explore('nopin', cn, run_case, budget_s=600, chunksize=1)
+    run.explore('report', cases_report(run.tier), run_case, budget_s=600, chunksize=1)
     # ---- vacuity
     def vac(part, what):
         v = violation('vacuous-alphabet', {'part': part}, what)
@@ -1412,6 +1626,9 @@ def main(run):
         vac('tablecls', 'no malformed table reached the logged error path')
     if not run.extra.get('A_unity_entries_bit_exact'):
         vac('tables', 'unity table never evaluated')
+    for u in UNITS:
+        if not run.extra.get('R_cells', {}).get(u):
+            vac('report', 'no printed hot-spot value compared for temperature unit %s' % u)
 
 
 def replay(body):
